@@ -142,6 +142,8 @@ def main(argv):
         chk.violation({"property": PID, "broken": "driver run", "rc": rc, "stderr": se[-1500:]}, no_input=True)
         return chk.finish()
     impl = [b.split("\n") for b in blocks]
+    endfail = [(c, b[-1]) for c, b in zip(cases, impl) if b[-1] != "end panics=0"]
+    impl = [b[:-1] if b[-1].startswith("end ") else b for b in impl]
     model = None
     try:
         pre = "From Coq Require Import List ZArith String.\nFrom Syc Require Import Async.Resource.\nImport ListNotations.\n"
@@ -161,6 +163,8 @@ def main(argv):
         chk.violation({"property": PID, "broken": "driver run (feedback)", "rc": rc, "stderr": se[-1500:]}, no_input=True)
         return chk.finish()
     fimpl = [b.split("\n") for b in fblocks]
+    endfail += [(["fb"] + c, b[-1]) for c, b in zip(fcases, fimpl) if b[-1] != "end panics=0"]
+    fimpl = [b[:-1] if b[-1].startswith("end ") else b for b in fimpl]
     fmodel = None
     try:
         exprs = ["run_resources_fb %s" % glist([glist([("RWrite (%d)%%Z" if s[0] == "write" else "RComplete %d") % s[1] for s in c]) for c in fcases[i:i + 200]])
@@ -171,6 +175,10 @@ def main(argv):
         broken.append("model evaluation (feedback): " + str(e)[-500:])
         chk.obligation("model evaluation (feedback)", False, str(e))
     mism, orfail = [], []
+    chk.obligation("oracle: disposing the scope with fetches pending never panics, neither at disposal nor when the executor drops the cancelled tasks (%d histories)" % (len(cases) + len(fcases)),
+                   not endfail, str(endfail[:1]))
+    for c, l in endfail[:3]:
+        orfail.append({"steps": c, "failures": [{"what": "panic at / after disposal of a scope with pending fetches", "line": l}]})
     for i, (steps, lines) in enumerate(zip(fcases, fimpl)):
         chk.note_case("fb" + str(steps), any(st[0] == "write" and st[1] % 10 == 7 for st in steps))
         if lines[0] == "PANIC":
